@@ -5,7 +5,7 @@ from .. import AnalysisError
 from ..report import Ob
 from ..cfg import calls_at, call_attr, is_self_attr, recv_text
 from ..state import Analysis, State, TOP, sched_calls, sched_event_type, bind_call, SCHED_PARAMS
-from ..norm import Normalizer, cmp_norm, FrameEnv, single_defs
+from ..norm import Normalizer, cmp_norm, FrameEnv, single_defs, ctext
 from .. import inventory as inv
 from .. import devices as dv
 from .c02 import foreign_deleg_call
@@ -178,7 +178,7 @@ def check(ctx):
         o.fail(P, 'Buffer._pass_part_downstream', 'dwn.give_part(self._buffer[0][1])', 'the buffer never offers its head downstream', file=c.mod.path, line=c.node.lineno)
     for h in hand:
         o.count()
-        if not (h.ast.args and ast.unparse(h.ast.args[0]) == 'self._buffer[0][1]'):
+        if not (h.ast.args and ctext(h.ast.args[0], FrameEnv(h.frame)) == 'self._buffer[0][1]'):
             o.fail(P, 'Buffer._pass_part_downstream', None, 'the part offered downstream is not the head of the storage list', node=h)
 
     def is_wait_guard(n, truth):
@@ -535,6 +535,9 @@ def part_counting(ctx, o):
                 for br, fl in _ifexp_branches(inc):
                     v = ast.unparse(br)
                     kind = 'len' if v == 'len(self._part.parts)' else 'one' if v == '1' else 'other'
+                    if kind == 'other' and isinstance(br, ast.Call) and ast.unparse(br.func) == 'len' and len(br.args) == 1 and isinstance(br.args[0], ast.Attribute) \
+                            and br.args[0].attr == 'parts' and an.ev(br.args[0].value, before, n.frame) == 'arg':
+                        kind = 'len'          # through a local alias of the accepted part
                     s_ = after.with_flag('cnt2' if any(f.startswith('cnt:') for f in after.flags) else 'cnt:' + kind)
                     if fl:
                         if ('batch' in s_.flags and fl == 'single') or ('single' in s_.flags and fl == 'batch'):
@@ -550,7 +553,9 @@ def part_counting(ctx, o):
             return after
 
         def edge(an, n, label, st):
-            if n.kind == 'cond' and ast.unparse(n.ast) == 'isinstance(self._part, Batch)':
+            t = n.ast
+            if n.kind == 'cond' and isinstance(t, ast.Call) and ast.unparse(t.func) == 'isinstance' and len(t.args) == 2 and ast.unparse(t.args[1]) == 'Batch' and \
+                    (ast.unparse(t.args[0]) == 'self._part' or an.ev(t.args[0], st, n.frame) == 'arg'):
                 return st.with_flag('batch' if label == 'T' else 'single')
             return st
         an = Analysis(P, g, ['_part', '_output', '_block_input', '_is_shut_down'])
